@@ -388,6 +388,11 @@ func ContentionWith(seed int64, index int, tier string, opts ContentionOpts) *sp
 		c.World.MaxTerminateCycles = pk(1, 2)
 		c.Cycles = 6
 	}
+	if opts.MinRuntime && opts.EarlyRecreate {
+		// open system: a third of the pending jobs are submitted later (own stream: the other draws stay what they were).
+		// Work that started in an earlier cycle of the case is then what a late reclaimer meets
+		MarkArrivals(c, NewRand(seed, index, 22), 0.3)
+	}
 	return c
 }
 
